@@ -2279,6 +2279,27 @@ def c03_directed(ctx):
                     oid += 1
                     w.append({"a": "op", "op": _op(oid, ni, "DELETE", "nh", k, noeid=True)})
                 out.append(json.dumps(w))
+    for kind in ("v4", "v6", "mpls"):
+        # a DELETE (with a payload naming group 1) of a key that is not installed must not release a reference of group 1,
+        # which another installed entry still holds
+        w = [{"a": "reset", "nis": ["DEFAULT", "vrf1"], "fwd": True},
+             {"a": "op", "op": _op(1, "DEFAULT", "ADD", "nh", 1, noeid=True)}, {"a": "op", "op": _op(2, "DEFAULT", "ADD", "nhg", 1, nhs=(1,), noeid=True)},
+             {"a": "op", "op": _op(3, "DEFAULT", "ADD", kind, "k2", g=1, noeid=True)},
+             {"a": "op", "op": _op(4, "DEFAULT", "DELETE", kind, "k4", g=1, noeid=True)}, {"a": "op", "op": _op(5, "DEFAULT", "DELETE", kind, "k4", g=1, noeid=True)},
+             {"a": "op", "op": _op(6, "DEFAULT", "DELETE", "nhg", 1, noeid=True)}, {"a": "op", "op": _op(7, "DEFAULT", "DELETE", "nh", 1, noeid=True)},
+             {"a": "op", "op": _op(8, "DEFAULT", "DELETE", kind, "k2", g=1, noeid=True)}, {"a": "op", "op": _op(9, "DEFAULT", "DELETE", "nhg", 1, noeid=True)}]
+        out.append(json.dumps(w))
+        # a group that a Flush of its instance removed while an entry of another instance still names it: its DELETE (a key
+        # that is not installed) succeeds, and so does the DELETE of its former member
+        w = [{"a": "reset", "nis": ["DEFAULT", "vrf1"], "fwd": True},
+             {"a": "op", "op": _op(1, "DEFAULT", "ADD", "nh", 1, noeid=True)}, {"a": "op", "op": _op(2, "DEFAULT", "ADD", "nhg", 1, nhs=(1,), noeid=True)},
+             {"a": "op", "op": _op(3, "vrf1", "ADD", kind, "k2", g=1, gni="DEFAULT", noeid=True)},
+             {"a": "flush", "nis": ["DEFAULT"]},
+             {"a": "op", "op": _op(4, "DEFAULT", "DELETE", "nhg", 1, noeid=True)}, {"a": "op", "op": _op(5, "DEFAULT", "DELETE", "nh", 1, noeid=True)},
+             {"a": "op", "op": _op(6, "DEFAULT", "ADD", "nh", 1, noeid=True)}, {"a": "op", "op": _op(7, "DEFAULT", "ADD", "nhg", 1, nhs=(1,), noeid=True)},
+             {"a": "op", "op": _op(8, "DEFAULT", "DELETE", "nhg", 1, noeid=True)}, {"a": "op", "op": _op(9, "vrf1", "DELETE", kind, "k2", noeid=True)},
+             {"a": "op", "op": _op(10, "DEFAULT", "DELETE", "nhg", 1, noeid=True)}]
+        out.append(json.dumps(w))
     return out
 
 
@@ -2359,6 +2380,14 @@ def c01_directed(ctx):
                 w.append({"a": "op", "op": _op(2 + i, "DEFAULT", "ADD", kind, "k1", g=5, pl=pl, noeid=True)})
             w += [{"a": "op", "op": _op(9, "DEFAULT", "ADD", "nhg", 5, nhs=(1,), noeid=True)}, {"a": "op", "op": _op(10, "DEFAULT", "DELETE", kind, "k1", noeid=True)}]
             out.append(json.dumps(w))
+    # 140 entries held on one missing group, then the next-hop and the group: every one of them is installed and acknowledged
+    # by the call that installs the group
+    w = [{"a": "reset", "nis": ["DEFAULT", "vrf1"], "fwd": True}]
+    for i in range(140):
+        w.append({"a": "op", "op": _op(100 + i, "DEFAULT", "ADD", "v4", "k%d" % (2 * i + 2), g=1, noeid=True)})
+    w += [{"a": "op", "op": _op(1, "DEFAULT", "ADD", "nh", 1, noeid=True)}, {"a": "op", "op": _op(2, "DEFAULT", "ADD", "nhg", 1, nhs=(1,), noeid=True)},
+          {"a": "op", "op": _op(3, "DEFAULT", "DELETE", "nhg", 1, noeid=True)}]
+    out.append(json.dumps(w))
     return out
 
 
